@@ -398,6 +398,53 @@ func c05Exec(cs fw.Case) *fw.Fail {
 				return fw.Failf("UnmarshalFile: target deeply equal to the written value "+w+" for\n"+txt, "%s", g)
 			}
 		}
+		// reload into the target just filled, from a text in which every block omits its first field: the
+		// previous elements must be discarded, so the omitted fields are zero afterwards
+		if c.Slice >= 1 && t.NumField() > 0 {
+			var src2 strings.Builder
+			want2 := reflect.New(want.Elem().Type())
+			want2.Elem().Set(reflect.MakeSlice(want.Elem().Type(), c.Slice, c.Slice))
+			for i := 0; i < c.Slice; i++ {
+				var body strings.Builder
+				bb := *b
+				nm := want.Elem().Index(i).FieldByName("Name")
+				name := ""
+				if nm.IsValid() && nm.Kind() == reflect.String {
+					name = nm.String()
+				}
+				bb.build(&c.Shape, want2.Elem().Index(i), name, i, &body, "\t")
+				lines := strings.SplitAfter(body.String(), "\n")
+				// drop the first top-level scalar assignment, if the body starts with one
+				if len(lines) > 1 && !strings.Contains(lines[0], "def ") && len(c.Shape.Fields) > 0 {
+					first := 0
+					for fi, f := range c.Shape.Fields {
+						if !(f.Name == "Name" && f.Kind == "string") {
+							first = fi
+							break
+						}
+					}
+					if c.Shape.Fields[first].Kind != "struct" {
+						lines = lines[1:]
+						fv := want2.Elem().Index(i).Field(first)
+						fv.Set(reflect.Zero(fv.Type()))
+					}
+				}
+				if name != "" {
+					fmt.Fprintf(&src2, "def %s %q {\n", c.BlockTy, name)
+				} else {
+					fmt.Fprintf(&src2, "def %s {\n", c.BlockTy)
+				}
+				src2.WriteString(strings.Join(lines, ""))
+				src2.WriteString("}\n")
+			}
+			fmt.Fprintf(&src2, "bind %s:all -> slice\n", c.BlockTy)
+			if err := bcl.Unmarshal([]byte(src2.String()), target.Interface(), bcl.OptOutput(&out), bcl.OptLogger(&log)); err != nil {
+				return fw.Failf("second Unmarshal into the same slice succeeds for\n"+src2.String(), "error: %v", err)
+			}
+			if w, g := canonValue(want2.Elem()), canonValue(target.Elem()); w != g {
+				return fw.Failf("previous elements discarded: after reloading\n"+src2.String()+"the target is "+w, "%s", g)
+			}
+		}
 		fw.TallyOutcome(fmt.Sprintf("roundtrip-ok-slice=%v", c.Slice >= 0))
 		fw.TallyNontrivial()
 		return nil
@@ -520,12 +567,18 @@ func init() {
 		Level: "model_checking",
 		Rule: "struct shapes: <=3 fields of kinds int/float64/string/bool/nested struct (4 inner shapes, nesting <=2, named and anonymous struct types) over 9 name sets, 3 tagging modes (none, tagged, a tag equal to another field's name: precedence), Name absent or at every index, plus hand-declared named types; " +
 			"per shape: every value vector over per-kind alphabets (6 ints incl. extremes, 7 floats incl. -0.0/MaxFloat64/5e-324, 10 strings needing escapes (quotes, trailing backslash, control characters), 2 bools) with the canonical key spelling, every key spelling (case patterns, an underscore at every position) with one value vector, every admissible block-type spelling for named types, struct binding and slice binding of 1..3 blocks into a pre-filled slice. " +
-			"Oracle: the value is rendered as BCL text, Unmarshal must return nil and the target must equal the written value (floats by bit pattern).",
-		Subs:           []*fw.Sub{subC05},
+			"Also: slices of 1..400 seven-field structs (more than 241 and 2288 constants), three distinct local types of the same name unmarshalled in every order, and a reload into the filled slice from a text that omits a field (previous elements discarded). Oracle: the value is rendered as BCL text, Unmarshal must return nil and the target must equal the written value (floats by bit pattern).",
+		Subs:           []*fw.Sub{subC05, subC05Local, subC05Big},
 		BudgetQuick:    100,
 		BudgetThorough: 1500,
 		Assumptions:    []string{"anonymous struct types are built with reflect.StructOf; named types are a hand-declared set", "keys never collide by construction (collisions are C15/C16)"},
 		Run: func(c *fw.Ctx) {
+			for _, ord := range [][]int{{0}, {1}, {2}, {0, 1}, {1, 0}, {0, 2}, {2, 0}, {1, 2}, {2, 1}, {0, 1, 2}, {2, 1, 0}, {1, 0, 2}, {0, 0, 1, 1}, {2, 2, 0}} {
+				c.Do(subC05Local, &c05Local{Order: ord})
+			}
+			for _, n := range []int{1, 30, 39, 40, 41, 42, 60, 100, 380, 400} {
+				c.Do(subC05Big, &c05Big{N: n})
+			}
 			shapes := c05Shapes(c.Thorough())
 			c.Bound("shapes", len(shapes))
 			for si := range shapes {
@@ -627,3 +680,88 @@ func init() {
 		},
 	})
 }
+
+// ---------------------------------------------------------------- same-named local types, big slices
+
+type c05Local struct {
+	Order []int `json:"order"` // indices of the local Rec types unmarshalled in this order in one process state
+}
+
+func (c *c05Local) Key() string { return fmt.Sprint(c.Order) }
+
+var c05RecTexts = []struct {
+	src  string
+	want string
+}{
+	{"def rec { x = 1; b = \"s\" }\nbind rec -> struct", "{A:1 B:\"s\"}"},
+	{"def rec { b = \"t\"; y = 2; x = 3 }\nbind rec -> struct", "{B:\"t\" C:2 A:3}"},
+	{"def rec { x = 4; b = 5 }\nbind rec -> struct", "{X:4 Y:5}"},
+}
+
+var subC05Local = &fw.Sub{Name: "c05.localtypes", New: func() fw.Case { return &c05Local{} }, Exec: func(cs fw.Case) *fw.Fail {
+	c := cs.(*c05Local)
+	return fw.Guard(func() *fw.Fail {
+		for _, k := range c.Order {
+			t := c15RecTargets[k]()
+			var out, log bytes.Buffer
+			if err := bcl.Unmarshal([]byte(c05RecTexts[k].src), t, bcl.OptOutput(&out), bcl.OptLogger(&log)); err != nil {
+				return fw.Failf("Unmarshal into local type #"+fmt.Sprint(k)+" succeeds (order "+fmt.Sprint(c.Order)+")", "%v", err)
+			}
+			if g := canonValue(reflect.ValueOf(t).Elem()); g != c05RecTexts[k].want {
+				return fw.Failf("local type #"+fmt.Sprint(k)+" holds "+c05RecTexts[k].want+" (order "+fmt.Sprint(c.Order)+")", "%s", g)
+			}
+		}
+		fw.TallyOutcome("localtypes-ok")
+		fw.TallyNontrivial()
+		return nil
+	})
+}}
+
+type c05Big struct {
+	N int `json:"n"` // number of blocks bound into a slice (six scalar fields each: > 241 constants from N = 40)
+}
+
+func (c *c05Big) Key() string { return fmt.Sprint(c.N) }
+
+type BigRec struct {
+	Name string
+	A    int
+	B    float64
+	C    string
+	D    bool
+	E    int
+	F    string
+}
+
+var subC05Big = &fw.Sub{Name: "c05.bigslice", New: func() fw.Case { return &c05Big{} }, Exec: func(cs fw.Case) *fw.Fail {
+	c := cs.(*c05Big)
+	return fw.Guard(func() *fw.Fail {
+		var src strings.Builder
+		want := make([]BigRec, c.N)
+		for i := range want {
+			want[i] = BigRec{Name: fmt.Sprintf("n%d", i), A: 1000 + i, B: float64(i) + 0.5, C: fmt.Sprintf("c%d", i), D: i%2 == 0, E: -i, F: strings.Repeat("f", i%7)}
+			fmt.Fprintf(&src, "def big_rec %q {\n a = %d\n b = %s\n c = %q\n d = %v\n e = %s\n f = %q\n}\n", want[i].Name, want[i].A, litFloat(want[i].B), want[i].C, want[i].D, litInt(want[i].E), want[i].F)
+		}
+		src.WriteString("bind big_rec:all -> slice\n")
+		var got []BigRec
+		var out, log bytes.Buffer
+		if err := bcl.Unmarshal([]byte(src.String()), &got, bcl.OptOutput(&out), bcl.OptLogger(&log)); err != nil {
+			return fw.Failf(fmt.Sprintf("Unmarshal of %d blocks succeeds", c.N), "%v (log %q)", err, fw.Trunc(log.String(), 200))
+		}
+		if !reflect.DeepEqual(got, want) {
+			for i := range want {
+				if i >= len(got) || got[i] != want[i] {
+					return fw.Failf(fmt.Sprintf("element %d of %d = %+v", i, c.N, want[i]), "%d elements; element %d = %+v", len(got), i, func() any {
+						if i < len(got) {
+							return got[i]
+						}
+						return nil
+					}())
+				}
+			}
+		}
+		fw.TallyOutcome("bigslice-ok")
+		fw.TallyNontrivial()
+		return nil
+	})
+}}
